@@ -91,7 +91,15 @@ class RuntimeV2_x(Runtime):
                 format_colang_parsing_error_message(e, flow_content),
             )
 
-            flow_name = flow_content.split("\n")[0].split(" ", maxsplit=1)[1]
+            # The flow definition can be preceded by decorator lines, e.g. `@meta(...)`
+            flow_definition_lines = [
+                line for line in flow_content.split("\n") if line.startswith("flow ")
+            ]
+            if not flow_definition_lines:
+                raise ColangRuntimeError(
+                    "The generated Colang code contains no flow definition!"
+                ) from e
+            flow_name = flow_definition_lines[0].split(" ", maxsplit=1)[1]
             fixed_body = (
                 f"flow {flow_name}\n"
                 + f'  bot say "Internal error on flow `{flow_name}`."'
